@@ -51,6 +51,9 @@ func memGen(prop string) func(rng *core.Rng, tier string) *harness.Plan {
 			p.Params["start_s"] += int64(1707+rng.IntN(1500)) * 86400
 		}
 		p.Params["op_period_s"] = 10000000 // the real election ticks are off: operations are injected
+		if (prop == "C10" || prop == "C11") && rng.Chance(0.5) {
+			p.Params["future_accept"] = 1
+		}
 		p.Params["maxlat_ms"] = int64(5 + rng.IntN(40))
 		n := 8 + rng.IntN(10)
 		if tier == "thorough" {
